@@ -36,15 +36,21 @@ HIT_LINE_ME = 7
 SRC_RET = SRC.replace("    return d\n", "    return DONE(d)\n")
 SRC_ME_RET = SRC_ME.replace("    return d\n", "    return DONE(d)\n")
 _codes = {}
+LIMITS = oracle.Limits()
 
 
-def code_for(me, ret):
-    key = (me, ret)
+def code_for(me, ret, fresh=False):
+    key = (me, ret, fresh)
     if key not in _codes:
-        src = {(False, False): SRC, (True, False): SRC_ME, (False, True): SRC_RET, (True, True): SRC_ME_RET}[key]
+        src = {(False, False): SRC, (True, False): SRC_ME, (False, True): SRC_RET, (True, True): SRC_ME_RET}[key[:2]]
+        if fresh:
+            # the function returns an object made after the line was reached (and after the temporaries that the
+            # watches of that line produced were dropped)
+            src = src.replace("return DONE(d)", "return DONE(%s)" % {'list': '[a, b]', 'bigint': 'BIG + 3'}[fresh])
         _codes[key] = compile(src, PATH, 'exec')
     return _codes[key]
-WATCHES = ['locals()', 'globals()', 'a', 'd', 'd[0]', '[a]', 'g', 'e["d"]', 'G2', 'b']
+# BIG + k: a fresh object of an uncommon size - once dropped, the next object of that size takes over its address
+WATCHES = ['locals()', 'globals()', 'a', 'd', 'd[0]', '[a]', 'g', 'e["d"]', 'G2', 'b', 'BIG + 1', 'BIG + 2']
 _code = compile(SRC, PATH, 'exec')
 
 
@@ -95,8 +101,11 @@ def reachable(objs):
         seen[id(o)] = o
         kids = oracle.children_of(o) if oracle.is_friendly(o) else None
         if kids is None:
-            d = getattr(o, '__dict__', None)
-            kids = [(None, v) for v in d.values()] if isinstance(d, dict) else []
+            try:
+                d = object.__getattribute__(o, '__dict__')
+            except BaseException:      # noqa - no attribute dictionary (or a hostile one)
+                d = None
+            kids = [(None, v) for v in d.values()] if type(d) is dict else []
         if kids == 'unordered':
             kids = [(None, c) for c in o]
         for _, c in kids:
@@ -152,14 +161,17 @@ class C07(Prop):
     quick_examples = 1000
     thorough_examples = 5000
     fuzz_runs = 6000
-    floors = {'budget_cut': 0.1, 'watch_on_framed_value': 0.3, 'log_before_snapshot': 0.05, 'all_frame': 0.2,
-              'two_snapshots': 0.15, 'frame_holds_its_own_locals': 0.3, 'deferred_capture': 0.3}
+    floors = {'budget_cut': 0.1, 'watch_on_framed_value': 0.2, 'log_before_snapshot': 0.035, 'all_frame': 0.15,
+              'two_snapshots': 0.15, 'frame_holds_its_own_locals': 0.2, 'deferred_capture': 0.2}
 
     def strategy(self, tier):
         big = tier == 'thorough'
         return fd({
-            'values': values.value_recipes(values.FRIENDLY, min_nodes=3, max_nodes=14 if big else 9, max_items=5,
-                                           str_keys_only=True),
+            # mostly friendly data (identity claims are made about it), with members whose str / len / attribute
+            # access raises (Exception or BaseException): a walk that one of them cuts short must leave no reference
+            # to an entry that never made it into the table
+            'values': values.value_recipes(values.FRIENDLY * 4 + values.HOSTILE_KINDS, min_nodes=3,
+                                           max_nodes=14 if big else 9, max_items=5, str_keys_only=True),
             'idx': st.lists(st.integers(0, 13), min_size=3, max_size=3),
             'watches': st.lists(st.sampled_from(WATCHES), max_size=3),
             'actions': st.lists(st.sampled_from(['snapshot', 'log', 'snapshot', 'snapshot+log']), min_size=1, max_size=3),
@@ -169,6 +181,7 @@ class C07(Prop):
             'capture': st.booleans(),
             # the paused frame is the outermost one (nothing below it) and holds its own locals() in a local
             'outermost': st.sampled_from([False, False, False, True]),
+            'ret_fresh': st.sampled_from([None, 'list', 'bigint']),
         })
 
     def case_outermost(self, recipe, out, vals, i0, i1, actions, n_snap):
@@ -245,16 +258,19 @@ class C07(Prop):
             except BaseException as e:      # noqa
                 out.violate('trace_call raised %s' % lab.exc_bucket(e))
 
+        returned = []
+
         def DONE(v):
+            returned.append(v)
             try:
                 handler.trace_call(sys._getframe(1), 'return', v)
             except BaseException as e:      # noqa
                 out.violate('trace_call raised %s' % lab.exc_bucket(e))
             return v
 
-        ns = {'V': vals, 'I0': i0, 'I1': i1, 'I2': i2, 'HIT': HIT, 'DONE': DONE, '__name__': 'c07_mod'}
+        ns = {'BIG': 1 << 3000, 'V': vals, 'I0': i0, 'I1': i1, 'I2': i2, 'HIT': HIT, 'DONE': DONE, '__name__': 'c07_mod'}
         import threading
-        t = threading.Thread(target=exec, args=(code_for(me, capture), ns), name='c07-prog')   # small, engine-free stack below
+        t = threading.Thread(target=exec, args=(code_for(me, capture, recipe.get('ret_fresh') or False), ns), name='c07-prog')   # small, engine-free stack below
         t.start()
         t.join()
         if not readings:
@@ -307,8 +323,15 @@ class C07(Prop):
                     roots.append((w.result, top['d'][0]))
                 if w.source == 'WATCH' and w.result is not None and w.expression == 'e["d"]':
                     roots.append((w.result, top['e']['d']))
-                if w.source == 'CAPTURE' and w.result is not None:
-                    roots.append((w.result, top['d']))
+                if w.source == 'CAPTURE' and w.result is not None and returned:
+                    roots.append((w.result, returned[0]))
+                    # the entry the captured value points at must describe that value (not an object that happened to
+                    # live at the same address earlier)
+                    try:
+                        oracle.compare_var(snap.var_lookup, w.result.vid, returned[0], LIMITS, ['return'], 1, True)
+                    except oracle.Mismatch as m:
+                        out.violate('captured return value resolves to an entry describing another object (%s)' % m.kind,
+                                    {'path': m.path, 'detail': m.detail})
             if capture and not any(w.source == 'CAPTURE' for w in snap.watches):
                 out.violate('deferred snapshot delivered without the captured return value')
             pairs = joint_walk(snap, roots)
